@@ -91,7 +91,7 @@ def scenario(rng, k, thorough, tag='s'):
     fluid = [c for c in cand if rng.random() < pf]
     M = 8
     prof = rng.choice(['uniform', 'random', 'random', 'slow', 'back', 'burst'])
-    nsteps = rng.randint(3, 8) if not thorough else rng.randint(4, 16)
+    nsteps = rng.randint(3, 8) if not thorough else rng.randint(4, 18)
     ops = []
     for st in range(nsteps):
         def field():
@@ -139,6 +139,44 @@ def warm_scenarios():
             fluid=[[1, 0, 0]], outlet=[[5, 0, 0], [7, 0, 0]],
             ops=[['adv', [2], [0]], ['in', 2], ['out', 2],
                  ['adv', [2], [0]], ['in', 2], ['out', 2]]))
+    return out
+
+
+SEEDED = ('recycle_x_only', 'outlet_no_remove', 'outlet_no_delete')
+
+
+def seeded_fault_selftest(chk, sc):
+    """Run a few histories through the real code with one statement of
+    update() removed (in memory, in the driver process): TLC must reject."""
+    rng = random.Random(chk.seed + 5)
+    scens = []
+    k = 0
+    while len(scens) < 24:
+        s = scenario(rng, 5 * k, False, tag='f')     # family donothing
+        k += 1
+        if s['mode'] == 'manager' and s['dim'] >= 2 and \
+                s['flow'] in ([0, 1, 0], [0, -1, 0]):
+            scens.append(s)
+    fi = os.path.join(sc, 'seeded.ndjson')
+    with open(fi, 'w') as fp:
+        for s in scens:
+            fp.write(json.dumps(s) + '\n')
+
+    def one(name):
+        fo = os.path.join(sc, 'seeded-%s.out' % name)
+        chk.run_py('checks/c16_driver.py', [fi, fo], timeout=1800,
+                   env_extra={'C16_SEEDED_FAULT': name})
+        v, _ = tlc.validate_batches('TraceInletOutlet', 'TraceInletOutlet.cfg',
+                                    [fo], parallel=1)
+        return name, sum(1 for x in v if x['failed'] and not x['known']), len(v)
+    with ThreadPoolExecutor(max_workers=3) as ex:
+        res = list(ex.map(one, SEEDED))
+    out = {}
+    for name, bad, n in res:
+        out[name] = '%d of %d histories rejected' % (bad, n)
+        if bad == 0:
+            raise MachineryError('self-test: seeded fault %s in the real '
+                                 'update() was not detected' % name)
     return out
 
 
@@ -220,8 +258,17 @@ def body(chk):
     if chk.args.replay:
         case = json.load(open(chk.args.replay))['case']
         if not case.get('scenario'):
-            raise MachineryError('replay file has no scenario (design-model '
-                                 'counterexample); rerun the tier instead')
+            # a counterexample of the design model: re-run that instance
+            n = case['design']
+            r = tlc.run('InletOutlet', 'InletOutlet.%s.cfg' % n, workers=6,
+                        timeout=3000)
+            if r.get('error') or r.get('timeout'):
+                raise MachineryError('TLC design %s failed:\n%s' % (
+                    n, r['out'][-2000:]))
+            if not r['ok']:
+                chk.violation('design model InletOutlet.%s: %s violated' % (
+                    n, r['violation']), case)
+            chk.finish()
         scens = [case['scenario']]
     else:
         chk.env
@@ -249,7 +296,7 @@ def body(chk):
                 for n in (DESIGN_QUICK if quick else DESIGN_THOROUGH)]
         if not quick or chk.args.selftest:
             mfut = [pool.submit(mut, m) for m in sorted(MUTANTS)]
-        n = 1600 if quick else 4500
+        n = 1000 if quick else 7000
         scens = [scenario(rng, k, not quick) for k in range(n)]
         # compile the evaluators once (one process per family and mode),
         # so that the parallel phase only loads cached modules
@@ -328,6 +375,14 @@ def body(chk):
             len(verdicts), len(lines)))
     phases['trace_validation_s'] = round(time.time() - t1, 1)
     t1 = time.time()
+    seeded = {}
+    if not chk.args.replay and (not quick or chk.args.selftest):
+        try:
+            seeded = seeded_fault_selftest(chk, sc)
+        except tlc.TLCError as ex:
+            raise MachineryError(str(ex))
+        phases['seeded_faults_s'] = round(time.time() - t1, 1)
+        t1 = time.time()
     designs = [f.result() for f in dfut]
     phases['waiting_for_design_runs_s'] = round(time.time() - t1, 1)
     mres = [f.result() for f in mfut]
@@ -420,6 +475,7 @@ def body(chk):
         states=dstates or st['distinct'],
         transitions=dtrans or st['generated'],
         design_runs=dinfo, design_mutants=minfo, phases=phases,
+        seeded_faults_in_real_update=seeded,
         traces_validated_against_impl=len(verdicts) - len(mutants),
         particles_entered=nent,
         particles_left=nleft, particles_deleted=ndel,
@@ -427,7 +483,7 @@ def body(chk):
         corrupted_trace_kinds=seen_kinds,
         failing_clauses=kinds,
         evaluations=ncalls, distinct_nontrivial=len(nontrivial),
-        rule='a case is one history (geometry, initial particles, 6-32 '
+        rule='a case is one history (geometry, initial particles, 6-36 '
              'advect-then-update rounds) replayed into real Inlet/Outlet '
              'objects and judged call by call by TLC; distinct by the '
              'scenario; non-trivial when at least 2 particles entered the '
